@@ -15,6 +15,7 @@
 From Bnum Require Import Base Prim.
 From Bnum.Model Require Import Core Cast Convert FloatCast NumConv.
 From Bnum.Proofs Require Import FloatCastDeps FloatCast NumConvDeps CastLemmas Cast Convert NumConv.
+From Bnum.Proofs Require Import DischargeNumConv.
 
 (* --- from_prim_ok: FromPrimitive::from_{u8..u128, usize, i8..i128, isize}, every target width --- *)
 
@@ -146,12 +147,13 @@ Theorem C19_to_float_never_none : forall dbg F w (ss : bool) a, ToPrimitive_floa
 Proof. exact ToPrimitive_float_never_none. Qed.
 Print Assumptions C19_to_float_never_none.
 
-(* always Some and no panic — under the one C14 fact not available here (the integer -> float cast returns a float) *)
-Theorem C19_to_float_total : cast_float_from_uint_total_spec -> forall dbg F w n (ss : bool) a,
+(* always Some and no panic (the C14 fact used — the integer -> float cast returns a float of the format — is
+   Proofs/DischargeNumConv.v cast_float_from_uint_total_spec_holds, from C14's cast_float_from_uint_ok) *)
+Theorem C19_to_float_total : forall dbg F w n (ss : bool) a,
   F = F32 \/ F = F64 -> 0 < w -> (0 < n)%nat -> wf w n a ->
   exists r, ToPrimitive_float dbg F w ss a = Ret (Some r) /\ AsPrimitive_to_float dbg F w ss a = Ret r /\
             0 <= r < 2 ^ fbits F.
-Proof. exact ToPrimitive_float_total_cond. Qed.
+Proof. exact (ToPrimitive_float_total_cond cast_float_from_uint_total_spec_holds). Qed.
 Print Assumptions C19_to_float_total.
 
 (* --- as_primitive: AsPrimitive::as_ is the As / CastFrom cast, in every direction --- *)
@@ -211,10 +213,10 @@ Theorem C19_as_from_float_ok : forall dbg F w n (dsg : bool) x,
 Proof. exact AsPrimitive_from_float_ok. Qed.
 Print Assumptions C19_as_from_float_ok.
 
-Theorem C19_as_to_float_total : cast_float_from_uint_total_spec -> forall dbg F w n (ss : bool) a,
+Theorem C19_as_to_float_total : forall dbg F w n (ss : bool) a,
   F = F32 \/ F = F64 -> 0 < w -> (0 < n)%nat -> wf w n a ->
   exists r, AsPrimitive_to_float dbg F w ss a = Ret r /\ 0 <= r < 2 ^ fbits F.
-Proof. exact AsPrimitive_to_float_total_cond. Qed.
+Proof. exact (AsPrimitive_to_float_total_cond cast_float_from_uint_total_spec_holds). Qed.
 Print Assumptions C19_as_to_float_total.
 
 (* --- total: no FromPrimitive / ToPrimitive method panics, in either build mode
